@@ -8,6 +8,7 @@ import (
 
 	"verifharness/hx"
 
+	relaytypes "github.com/attestantio/go-block-relay/types"
 	apiv1 "github.com/attestantio/go-eth2-client/api/v1"
 	"github.com/attestantio/go-eth2-client/spec/bellatrix"
 	"github.com/attestantio/go-eth2-client/spec/phase0"
@@ -165,7 +166,10 @@ func c17Units(tier string) []hx.Unit {
 						case "auction2":
 							out = append(out, func() { _, _ = svc.AuctionBlock(ctx, 3300, phase0.Hash32{1}, v2.pubkey()) })
 						case "validatorregs":
-							out = append(out, func() { _, _ = svc.ValidatorRegistrations(ctx, nil) })
+							out = append(out, func() {
+								// a beacon node's MEV-boost registration for a validator vouch does not control
+								_, _ = svc.ValidatorRegistrations(ctx, []*relaytypes.SignedValidatorRegistration{{Message: &relaytypes.ValidatorRegistration{Pubkey: newAccount("X", "ext", 9).pubkey(), GasLimit: 1, Timestamp: mc.Base}}})
+							})
 						}
 					}
 					return out
